@@ -10,6 +10,7 @@ import (
 	"github.com/glebziz/fs_db/verifh/checks"
 	"github.com/glebziz/fs_db/verifh/conc"
 	"github.com/glebziz/fs_db/verifh/dbh"
+	"github.com/glebziz/fs_db/verifh/enum"
 	"github.com/glebziz/fs_db/verifh/seq"
 	"github.com/glebziz/fs_db/verifh/hk"
 	"github.com/glebziz/fs_db/verifh/litmus"
@@ -35,6 +36,22 @@ func main() {
 		}
 	case "worker":
 		conc.WorkerMain()
+	case "enumcase":
+		// debugging aid: verifh enumcase <family> <params> <from> <to>
+		defer dbh.Cleanup()
+		f := enum.Lookup(os.Args[2], os.Args[3])
+		var from, to int64
+		fmt.Sscan(os.Args[4], &from)
+		fmt.Sscan(os.Args[5], &to)
+		for i := from; i <= to; i++ {
+			o := f.Run(i)
+			if o.Mismatch != nil {
+				fmt.Printf("case %d: %s\n   %s\n", i, o.Mismatch.Sig, o.Mismatch.What)
+			}
+		}
+	case "enumworker":
+		defer dbh.Cleanup()
+		enum.WorkerMain(os.Args[2])
 	case "seqworker":
 		defer dbh.Cleanup()
 		seq.WorkerMain(os.Args[2])
